@@ -354,6 +354,15 @@ func (p *c06Pool) runCellOver(rep *vlib.Report, cfg string, sh c06Shape, assign 
 	}
 	rep.Nontrivial(sh.name + "|" + string(assign) + overName)
 	rep.Outcome(wantG)
+	// keep the cache small: the cell's own action result (and Tree blob) are dropped again, so that
+	// hundreds of thousands of cells never create space pressure on the pool blobs
+	if cls != "recency" {
+		disk.VfForget(p.f.cache, "ac/"+key)
+		if tree != nil {
+			tb, _ := proto.Marshal(tree)
+			disk.VfForget(p.f.cache, "cas/"+vlib.Sha(tb))
+		}
+	}
 }
 
 // c06Aliases: for every ordered pair of reference slots (i<j) of the shape,
@@ -474,12 +483,20 @@ func c06Recency(rep *vlib.Report, p *c06Pool, cfg string) {
 	for i, e := range st.Entries { // most recently used first
 		pos[e.Key] = i
 	}
-	ctlPos := pos["cas/"+ctl.Hash]
+	ctlPos, okCtl := pos["cas/"+ctl.Hash]
+	if !okCtl {
+		rep.BrokenHarness("recency: the control blob is not in the index")
+		return
+	}
 	for j := 0; j < k; j++ {
 		if j == 2 {
 			continue // slot 2 is the tree digest (a freshly stored blob)
 		}
 		h := p.slots[j].present.Hash
+		if _, ok := pos["cas/"+h]; !ok {
+			rep.BrokenHarness("recency: pool blob of slot %d is not in the index", j)
+			return
+		}
 		if pos["cas/"+h] > ctlPos {
 			rep.Violate("C06 a hit does not count as a use of a referenced blob", fmt.Sprintf("%s: after the hit, referenced blob in slot %d is less recently used than a blob touched before the request", cfg, j), nil)
 		}
